@@ -207,8 +207,12 @@ func drawDev(c *simkit.Choice, units int) (*reftls.Dev, int, string) {
 		why = "empty handshake record"
 	case reftls.DevLenField:
 		d.N = c.Choose(64, simkit.LFault)
-		d.Val = []int{1, 2, 3, -1, -2, -3, 255, -100000, 65536}[c.Choose(9, simkit.LFault)]
+		d.Val = []int{1, 2, 3, -1, -2, -3, 255, -100000, 65536, 256, -256, 512, 0x100 * 3}[c.Choose(13, simkit.LFault)]
 		why = fmt.Sprintf("one length/count field inside the message %+d", d.Val)
+		if c.Bool(1, 2, simkit.LFault) {
+			d.InTranscript = true
+			why += " (hashed by the peer as sent)"
+		}
 	case reftls.DevExtendBody:
 		d.RecBody = drawData(c, c.Range(1, 8, simkit.LFault))
 		why = "bytes appended behind the message body (handshake length adjusted, hashed by the peer as sent)"
@@ -282,7 +286,29 @@ func runScriptedPeer(c *simkit.Choice, r *simkit.Rec) {
 	if mismatch && class != 2 {
 		class = 2 // the server only ever sees the ClientHello of a client of the other protocol family
 	}
+	if class == 2 && !mismatch && c.Bool(1, 8, simkit.LScen) {
+		class = 6
+	}
 	switch class {
+	case 6:
+		// a well-formed, honestly hashed message that is larger than one record may
+		// be, sent in a single unprotected record of 16 385 .. 18 432 bytes instead of
+		// being fragmented: record_overflow, whatever the content
+		sr.Expect = expFail
+		if sr.EUTServer {
+			n := c.Range(16400, 18000, simkit.LFault)
+			sr.ExtraExts = []reftls.Ext{{Type: 0xfabd, Data: make([]byte, n)}}
+			sr.Why = "ClientHello of more than 2^14 bytes (large unknown extension) sent in one plaintext record"
+		} else {
+			var list [][]byte
+			if sr.TLS {
+				list = append([][]byte{pki.DER("tlsrsa")}, bigExtras(false, 16300)...)
+			} else {
+				list = append([][]byte{pki.DER("srv-sign"), pki.DER("srv-enc")}, bigExtras(true, 15600)...)
+			}
+			sr.SrvCertList = list
+			sr.Why = "Certificate message of more than 2^14 bytes sent in one plaintext record"
+		}
 	case 1:
 		nd := 1 + c.Weighted([]int{6, 2, 1}, simkit.LFault)
 		sr.Expect = expComplete
@@ -933,6 +959,7 @@ func runScriptedPeer(c *simkit.Choice, r *simkit.Rec) {
 	s.Spawn("peer", 1, func() {
 		pc = reftls.NewConn(peerRaw)
 		pc.Devs = sr.Devs
+		pc.NoFragment = class == 6
 		// the peer gives up (and ends its stream) after 60 virtual seconds of silence
 		peerRaw.SetReadDeadlineNS(s.Now + 60e9)
 		if sr.EUTServer {
